@@ -157,6 +157,8 @@ def render_world(world: dict) -> str:
     lines = [f"passes {int(world.get('passes', 1))}"]
     if world.get("boot_us"):
         lines.append(f"boot_us {int(world['boot_us'])}")
+    if world.get("millis_base"):
+        lines.append(f"millis_base {int(world['millis_base'])}")
     if world.get("cost_us"):
         lines.append(f"cost_us {int(world['cost_us'])}")
     if world.get("max_events"):
